@@ -423,6 +423,33 @@ func checkC05(c *Ctx) {
 		c.Count("deep_nesting_inputs", 14)
 	}
 
+	// 3b'. a syntax error after a character of every plane and of every block boundary the error
+	// printer's width table knows (and the code points next to them): rendering must succeed
+	{
+		cps := []rune{}
+		for plane := rune(0); plane <= 16; plane++ {
+			for _, off := range []rune{0x0, 0x1, 0x100, 0x7FFF, 0xFFFD} {
+				cp := plane<<16 + off
+				if cp >= 0xD800 && cp <= 0xDFFF || cp == 0 {
+					continue
+				}
+				cps = append(cps, cp)
+			}
+		}
+		for _, b := range []rune{126, 159, 687, 710, 711, 727, 733, 879, 1154, 1161, 4347, 4447, 7467, 7521, 8369, 8426, 9000, 9002, 11021, 12350, 12351, 12438, 12442, 19893, 19967, 55203, 63743, 64106, 65039, 65059, 65131, 65279, 65376, 65500, 65510, 120831, 262141, 1114109, 0xE0001, 0xE0067, 0xE007F, 0xE0100, 0xE01EF, 0x1F3F4} {
+			for _, d := range []rune{-1, 0, 1, 2} {
+				if cp := b + d; cp > 0 && cp <= 0x10FFFF && !(cp >= 0xD800 && cp <= 0xDFFF) {
+					cps = append(cps, cp)
+				}
+			}
+		}
+		for _, cp := range cps {
+			add([]rune("令甲 = “" + string(cp) + "” 】】\n"))
+			add([]rune("令甲 = 1\n令" + "乙 = 「x" + string(cp) + string(cp) + "y」 + ）\n"))
+		}
+		c.Count("syntax_errors_after_a_character_of_every_plane", int64(2*len(cps)))
+	}
+
 	reqs := make([]Req, len(inputs))
 	for i, in := range inputs {
 		reqs[i] = parseReq(in)
